@@ -1288,12 +1288,45 @@ func runC18Decode(ctx *Ctx) {
 		f := c18Family[i%len(c18Family)]
 		var v cty.Value
 		tag := "shaped"
-		switch ctx.R.Intn(6) {
+		switch ctx.R.Intn(7) {
 		case 0:
 			// arbitrary value of an arbitrary type
 			t := genTy(ctx.R, 2, TyOpts{Dyn: true, Capsule: true})
 			v = genVal(ctx.R, t, 2, vo)
 			tag = "random"
+		case 6:
+			// a set (visited in the order of set.Set.Values: strings by bytes, numbers by value,
+			// false before true, nulls last) into the target; for a slice or array target the set has
+			// the target's element type when that is a primitive one
+			_, base := c18Depth(f.rt)
+			et := []cty.Type{cty.String, cty.Number, cty.Bool, cty.List(cty.String)}[ctx.R.Intn(4)]
+			wantLen := -1
+			if base.Kind() == reflect.Slice || base.Kind() == reflect.Array {
+				if bt, _, err := c18Bridge(base.Elem()); err == nil && (bt == cty.String || bt == cty.Number || bt == cty.Bool) && ctx.R.Intn(5) != 0 {
+					et = bt
+				}
+				if base.Kind() == reflect.Array && ctx.R.Intn(3) != 0 {
+					wantLen = base.Len()
+				}
+			}
+			o := ValOpts{Null: ctx.R.Intn(3) == 0, Marks: ctx.R.Intn(6) == 0, Small: ctx.R.Intn(2) == 0}
+			k := ctx.R.Intn(5)
+			var elems []cty.Value
+			for tries := 0; tries < 40; tries++ {
+				if wantLen < 0 && len(elems) >= k {
+					break
+				}
+				elems = append(elems, genVal(ctx.R, et, 1, o))
+				if sv, _ := cty.SetVal(elems).Unmark(); wantLen >= 0 && sv.IsKnown() && sv.LengthInt() >= wantLen {
+					break
+				}
+			}
+			if len(elems) == 0 {
+				v = cty.SetValEmpty(et)
+			} else {
+				v = cty.SetVal(elems)
+			}
+			tag = "set"
 		case 1:
 			// positional decoding: a tuple with as many elements as the struct has fields
 			_, base := c18Depth(f.rt)
@@ -1385,5 +1418,5 @@ func init() {
 	register("C18", "numbers: boundary values of each of the ten integer widths and both float widths (+-1, +-0.5, huge, infinite) decoded by the real FromCtyValue; "+
 		"round trip: random Go values of a fixed family of 49 Go types (all int widths, floats, string, bool, slices, arrays, string-keyed maps, pointers incl. **int, containers of pointers / of structs with pointer fields (every entry its own pointee; all-distinct three-entry values), "+
 		"nested tagged structs, big.Int, big.Float, embedded cty.Value) through ImpliedType/ToCtyValue/FromCtyValue; decoding: generated cty values (unknown, null, marked, "+
-		"shaped for the target or arbitrary, tuples positionally) into every target type. non-trivial = a boundary number or a nested Go type; distinct = distinct wire strings of the case", runC18)
+		"shaped for the target or arbitrary, tuples positionally, sets of primitive members in set iteration order) into every target type; irregular Go types (unsupported kinds, untagged structs, unexported tagged fields, non-string map keys) judged on the real code without the model; ImpliedType on every family type and on its error shapes. non-trivial = a boundary number or a nested Go type; distinct = distinct wire strings of the case", runC18)
 }
